@@ -45,7 +45,7 @@ def r1_dunders(R) -> None:
         rets = f.returns()
         R.check(len(rets) == 1 and rets[0].ast.value is c, q, 'returns-base', 'the base result is returned', f'{m} does not return the base result', where=f.fi.where)
         # what the base receives as key, as one gated expression over the key given
-        se = SymExec(f.fi.node)
+        se = f.symexec()
         st_ = [s_ for s_ in ast.walk(f.fi.node) if isinstance(s_, ast.stmt) and id(s_) in se.before and any(x is c for x in ast.walk(s_))]
         kv = canon(se.value(st_[-1], c.args[0])) if st_ and c.args else None
         if kv is None:
@@ -271,6 +271,44 @@ def r3_no_storage(R) -> None:
                                         where=f'{fi.module.relpath}:{x.lineno}')
                     if isinstance(t, ast.Attribute) and isinstance(t.value, ast.Name) and t.value.id == 'self':
                         R.violation(q, 'alias-attr-store:' + text(t), f'`{text(x)[:60]}` sets an attribute directly', where=f'{fi.module.relpath}:{x.lineno}')
+    # nothing is remembered on the class: an alias map cached on the class is inherited by subclasses that declare their own ALIASES
+    from fsa.effects import MUTATORS
+    for q, fi in R.repo.functions.items():
+        if not q.startswith(A + '.'):
+            continue
+        recv = fi.node.args.args[0].arg if fi.node.args.args else None
+        for x in ast.walk(fi.node):
+            if isinstance(x, (ast.Assign, ast.AugAssign, ast.AnnAssign)):
+                tg = x.targets if isinstance(x, ast.Assign) else [x.target]
+                for t in tg:
+                    r_ = t
+                    while isinstance(r_, (ast.Attribute, ast.Subscript)):
+                        r_ = r_.value
+                    cls_rooted = (isinstance(r_, ast.Name) and r_.id == 'cls') or text(t).startswith(('type(self).', 'self.__class__.', f'{A.split(".")[-1]}.'))
+                    if cls_rooted and isinstance(t, (ast.Attribute, ast.Subscript)):
+                        R.violation(q, 'alias-class-state:' + text(t)[:40], f'`{text(x)[:60]}` keeps state on the class: what one class (or instance) computed is seen by '
+                                    f'subclasses and other instances (a subclass with its own ALIASES would inherit the parent\'s resolved map)', where=f'{fi.module.relpath}:{x.lineno}')
+        # a method that changes one of its arguments in place, called with an object obtained from the base class or from
+        # the container: the alias layer would modify state it does not own (e.g. the live variable index)
+        params = [a.arg for a in fi.node.args.args[1:]]
+        mutated = set()
+        for x in ast.walk(fi.node):
+            if isinstance(x, ast.Call) and isinstance(x.func, ast.Attribute) and x.func.attr in MUTATORS and isinstance(x.func.value, ast.Name) and x.func.value.id in params:
+                mutated.add(x.func.value.id)
+            if isinstance(x, ast.Subscript) and isinstance(x.ctx, (ast.Store, ast.Del)) and isinstance(x.value, ast.Name) and x.value.id in params:
+                mutated.add(x.value.id)
+        if mutated:
+            for q2, fi2 in R.repo.functions.items():
+                if not q2.startswith(A + '.'):
+                    continue
+                for c in ast.walk(fi2.node):
+                    if is_self_call(c, fi.name):
+                        for p_, a_ in zip(params, c.args):
+                            owned = isinstance(a_, (ast.List, ast.Dict, ast.ListComp, ast.DictComp, ast.BinOp)) or is_call(a_, 'list', 'dict', 'sorted', 'copy.copy', 'copy.deepcopy')
+                            if p_ in mutated and not owned:
+                                R.violation(q2, f'alias-mutates-foreign:{fi.name}:{text(a_)[:30]}', f'`{text(c)[:60]}`: `{fi.name}()` changes its argument `{p_}` in place and receives '
+                                            f'`{text(a_)[:40]}`, an object the alias layer does not own (e.g. the container\'s live index list): aliases would be added to it',
+                                            where=f'{fi2.module.relpath}:{c.lineno}')
     R.ok(A, f'no add_variable/add_attribute and no __dict__ store except aliases/preferred_names in {n} methods')
     R.expect(A, n, 8, 'methods of AliasMixin')
 
@@ -329,12 +367,19 @@ def r5_export(R) -> None:
     R.check(not st, q, 'no-column-writes', 'no column is assigned', 'a column of the frame is assigned', where=f.fi.where)
     rs = f.raises('ValueError')
     R.check(len(rs) == 1, q, 'ambiguous-export', 'several preferred names for one variable are rejected', 'no ValueError for ambiguous preferences', where=f.fi.where)
-    # itertools.groupby only merges adjacent items: its input must be sorted by the same key
-    for n in f.cfg.nodes:
-        if n.ast is None:
-            continue
-        from fsa.flow import node_expr_roots
+    # itertools.groupby only merges adjacent items: its input must be sorted by the same key - in every method of the mixin
+    from fsa.flow import node_expr_roots
+    sites = []
+    for q2, fi2 in sorted(R.repo.functions.items()):
+        if q2.startswith(A + '.') and fi2.parent is None and any(is_call(x, 'itertools.groupby', 'groupby') for x in ast.walk(fi2.node)):
+            f2 = f if q2 == q else Fn(R, q2)
+            for n2 in f2.cfg.nodes:
+                if n2.ast is not None:
+                    sites.append((f2, n2))
+    for (f, n) in sites:
         for root in node_expr_roots(n):
+            if isinstance(root, (ast.FunctionDef, ast.ClassDef)):
+                continue
             for x in ast.walk(root):
                 if is_call(x, 'itertools.groupby', 'groupby'):
                     src = x.args[0] if x.args else None
@@ -348,9 +393,10 @@ def r5_export(R) -> None:
                             srt = vals[0][1]
                     skey = (kwarg(srt, 'key') if srt is not None else None)
                     ok = srt is not None and key is not None and skey is not None and text(skey) == text(key)
-                    R.check(ok, q, 'groupby-sorted:' + (text(src)[:40] if src is not None else '?'), 'aliases are grouped by target after sorting by target',
+                    R.check(ok, f.q, 'groupby-sorted:' + (text(src)[:40] if src is not None else '?'), 'aliases are grouped by target after sorting by target',
                             f'`{text(x)[:70]}` groups an input that is not sorted by the same key: aliases of one variable that are not adjacent in ALIASES fall into '
                             f'separate groups, so a later group overrides the declared preferred name', where=f.where(n))
+    f = Fn(R, q)
     g = [(text(a), truth) for (a, truth, _t) in f.guard_atoms(f.returns()[0].id)] if f.returns() else []
     R.check(('use_aliases', False) in g or ('not use_aliases', True) in g, q, 'default-unchanged', 'without use_aliases the frame is returned unchanged',
             'the first return is not the `not use_aliases` shortcut', where=f.fi.where)
